@@ -14,77 +14,63 @@ Definition cmp_safe (op : cmpop) (a b : expr) : bool :=
   | OpEq | OpNe => atom a && atom b && (iri_const a || iri_const b)
   | _ => false
   end.
-Fixpoint expr_safe (e : expr) : bool :=
+(* expressions on which rdflib's operators are the specification's (after the
+   repair of the logical-and): everything but EXISTS, comparisons restricted to
+   = and != between atoms one of which is an IRI constant (no literal-kind
+   question, finding F-C04-9).  Errors (unbound variables, EBV of an IRI) are
+   allowed: both evaluators treat them alike. *)
+Fixpoint expr_ok (e : expr) : bool :=
   match e with
-  | EBound _ => true
-  | ENot a => expr_safe a
-  | EAnd a b | EOr a b => expr_safe a && expr_safe b
+  | EVar _ | ECon _ | EBound _ => true
   | ECmp op a b => cmp_safe op a b
-  | _ => false
+  | EAnd a b | EOr a b => expr_ok a && expr_ok b
+  | ENot a => expr_ok a
+  | EExists _ _ => false
   end.
 
-Lemma ebv_of_bool b : ebv_of (Some (t_bool b)) = Some b.
-Proof. destruct b; reflexivity. Qed.
-
 Lemma atom_eval ds g m1 full m2 a :
-  atom a = true ->
-  (forall v, In v (evars a) -> lookup v m1 = lookup v m2 /\ lookup v m2 <> None) ->
-  exists t, expr_td ds g m1 full a = Some t /\ expr_bu ds g m2 a = Some t
-            /\ (iri_const a = true -> is_lit t = false).
+  atom a = true -> (forall v, In v (evars a) -> lookup v m1 = lookup v m2) ->
+  expr_td ds g m1 full a = expr_bu ds g m2 a
+  /\ (iri_const a = true -> forall t, expr_bu ds g m2 a = Some t -> is_lit t = false).
 Proof.
   destruct a; try discriminate; intros _ H; cbn.
-  - destruct (H v) as [E N]; [now left|]. rewrite E.
-    destruct (lookup v m2) as [t|]; [|congruence]. exists t. repeat split; auto. discriminate.
-  - exists t. repeat split; auto. cbn. intros Hh. now apply negb_true_iff in Hh.
+  - split; [apply H; now left|discriminate].
+  - split; [reflexivity|]. intros Hh t0 [= <-]. now apply negb_true_iff in Hh.
 Qed.
 
-Lemma expr_safe_agree ds g full e : forall m1 m2,
-  expr_safe e = true ->
-  (forall v, In v (evars e) -> lookup v m1 = lookup v m2 /\ lookup v m2 <> None) ->
-  exists b, expr_td ds g m1 full e = Some (t_bool b) /\ expr_bu ds g m2 e = Some (t_bool b).
+Lemma expr_ok_agree ds g full e : forall m1 m2,
+  expr_ok e = true -> (forall v, In v (evars e) -> lookup v m1 = lookup v m2) ->
+  expr_td ds g m1 full e = expr_bu ds g m2 e.
 Proof.
   induction e; intros m1 m2 S H; cbn in S; try discriminate.
-  - (* ECmp *)
-    unfold cmp_safe in S.
+  - cbn. apply H. now left.
+  - reflexivity.
+  - unfold cmp_safe in S.
     assert (Sop : (op = OpEq \/ op = OpNe) /\ atom e1 = true /\ atom e2 = true
                   /\ (iri_const e1 = true \/ iri_const e2 = true)).
     { destruct op; try discriminate; apply andb_true_iff in S as [S1 S2];
       apply andb_true_iff in S1 as [S0 S1]; apply orb_true_iff in S2; auto. }
     destruct Sop as [Sop [A1 [A2 I]]].
-    destruct (atom_eval ds g m1 full m2 e1 A1) as [t1 [T1 [B1 K1]]].
+    destruct (atom_eval ds g m1 full m2 e1 A1) as [T1 K1].
     { intros v Iv. apply H. cbn. apply in_or_app. now left. }
-    destruct (atom_eval ds g m1 full m2 e2 A2) as [t2 [T2 [B2 K2]]].
+    destruct (atom_eval ds g m1 full m2 e2 A2) as [T2 K2].
     { intros v Iv. apply H. cbn. apply in_or_app. now right. }
-    cbn. rewrite T1, T2, B1, B2. cbn.
+    cbn. rewrite T1, T2.
+    destruct (expr_bu ds g m2 e1) as [t1|] eqn:B1; [|reflexivity].
+    destruct (expr_bu ds g m2 e2) as [t2|] eqn:B2; [|reflexivity]. cbn.
     assert (L : is_lit t1 && is_lit t2 && negb (same_kind t1 t2) = false).
-    { destruct I as [I|I]; [rewrite (K1 I)|rewrite (K2 I)]; cbn; [reflexivity|].
+    { destruct I as [I|I]; [rewrite (K1 I t1 eq_refl)|rewrite (K2 I t2 eq_refl)]; cbn; [reflexivity|].
       now rewrite andb_false_r. }
-    destruct Sop as [-> | ->]; cbn; rewrite L; eexists; split; reflexivity.
-  - (* EAnd *)
-    apply andb_true_iff in S as [S1 S2].
-    destruct (IHe1 m1 m2 S1) as [b1 [T1 B1]].
-    { intros v Iv. apply H. cbn. apply in_or_app. now left. }
-    destruct (IHe2 m1 m2 S2) as [b2 [T2 B2]].
-    { intros v Iv. apply H. cbn. apply in_or_app. now right. }
-    cbn. rewrite T1, T2, B1, B2, !ebv_of_bool.
-    exists (b1 && b2). destruct b1, b2; split; reflexivity.
-  - (* EOr *)
-    apply andb_true_iff in S as [S1 S2].
-    destruct (IHe1 m1 m2 S1) as [b1 [T1 B1]].
-    { intros v Iv. apply H. cbn. apply in_or_app. now left. }
-    destruct (IHe2 m1 m2 S2) as [b2 [T2 B2]].
-    { intros v Iv. apply H. cbn. apply in_or_app. now right. }
-    cbn. rewrite T1, T2, B1, B2, !ebv_of_bool.
-    exists (b1 || b2). destruct b1, b2; split; reflexivity.
-  - (* ENot *)
-    destruct (IHe m1 m2 S) as [b [T B]]; [exact H|].
-    cbn. rewrite T, B, !ebv_of_bool. exists (negb b). split; reflexivity.
-  - (* EBound *)
-    cbn. destruct (H v) as [E _]; [now left|]. rewrite E. eexists; split; reflexivity.
+    destruct Sop as [-> | ->]; cbn; rewrite L; reflexivity.
+  - apply andb_true_iff in S as [S1 S2]. cbn.
+    rewrite (IHe1 m1 m2 S1), (IHe2 m1 m2 S2); [reflexivity| |];
+      intros v Iv; apply H; cbn; apply in_or_app; auto.
+  - apply andb_true_iff in S as [S1 S2]. cbn.
+    rewrite (IHe1 m1 m2 S1), (IHe2 m1 m2 S2); [reflexivity| |];
+      intros v Iv; apply H; cbn; apply in_or_app; auto.
+  - cbn. rewrite (IHe m1 m2 S H). reflexivity.
+  - cbn. rewrite (H v); [reflexivity|now left].
 Qed.
-
-Lemma ebv_bool b : ebv (Some (t_bool b)) = b.
-Proof. destruct b; reflexivity. Qed.
 
 (* ---- restrict / forget ---- *)
 Lemma lookup_restrict f v m : lookup v (restrict f m) = if f v then lookup v m else None.
@@ -373,17 +359,3 @@ Lemma join_lists_nil_l B : join_lists [] B = []. Proof. reflexivity. Qed.
 Lemma join_lists_nil_r A : join_lists A [] = [].
 Proof. unfold join_lists. induction A; cbn; auto. Qed.
 
-Lemma needs_triple_empty ds p : shape p = true -> needs_triple p = true -> eval_bu ds [] p = [].
-Proof.
-  induction p; cbn [shape needs_triple]; try discriminate; intros S N; cbn [eval_bu].
-  - destruct ts; [discriminate|reflexivity].
-  - apply andb_true_iff in S as [S1 S2]. apply orb_true_iff in N as [N|N].
-    + rewrite (IHp1 S1 N). reflexivity.
-    + rewrite (IHp2 S2 N). apply join_lists_nil_r.
-  - apply andb_true_iff in S as [S1 S2]. rewrite (IHp1 S1 N). reflexivity.
-  - rewrite (IHp S N). reflexivity.
-  - apply andb_true_iff in S as [S1 S2]. apply andb_true_iff in N as [N1 N2].
-    now rewrite (IHp1 S1 N1), (IHp2 S2 N2).
-  - apply andb_true_iff in S as [S1 S2]. rewrite (IHp1 S1 N). reflexivity.
-  - rewrite (IHp S N). reflexivity.
-Qed.
